@@ -73,11 +73,15 @@ CLAIMED={
         "bounded universes"),
 }
 NOT_YET="check not built yet in this framework; it will be claimed once its exhaustive check exists (no technique switch planned)"
+SWEEPS={'C01','C03','C04','C05','C06','C08','C11','C12','C13','C14','C15','C17','C19'}
 checks=[]
 for p in props:
     i=p['id']
     if i in CLAIMED:
         t,l,n=CLAIMED[i]
+        if i in SWEEPS:
+            l+="; in addition the one-dimensional exhaustive families of DESIGN §7.2b: the scale universe (counts/lengths/offsets across 2^8, 2^16, 2^20), the size sweep (every N up to 1,100 quick / 4,200 thorough, then 2^k-1, 2^k, 2^k+1 up to 2^17) and, where the oracle is per document or relational, the depth sweep (every depth 1..300)"
+            n+="; thresholds beyond the swept sizes/depths, or needing two large dimensions at once, are not covered"
         checks.append({"property_id":i,"quick_cmd":f"./run_check.sh {i} quick","thorough_cmd":f"./run_check.sh {i} thorough",
           "evidence_file":f"/verif/evidence/{i}.json","replay_cmd_template":"./mc/target/release/mc replay {path}","engine":"mc",
           "level_claimed":{"category":"model_checking","text":l,"design_ref":f"DESIGN.md Part 3, {i}"},
